@@ -264,7 +264,7 @@ pub struct Ev {
 }
 
 pub const MAIN: u8 = 255;
-pub const NSLOTS: usize = 16;
+pub const NSLOTS: usize = 24;
 
 /// Faults the interpreter itself notices (identity of handed-back payloads).
 #[derive(Clone, Debug, PartialEq, Eq, Hash)]
